@@ -3,7 +3,10 @@
 Emits coq/Generated/GenCreateOrder.v: the tags of a fixed set of source markers in *source order*
 (each marker must occur exactly once in the function body), whether every file-opening / writing
 marker lies inside the `if !self.dry_run { … }` block, whether torrent_path is the expression the
-model mirrors, and the number of filesystem-mutating call sites in the two files. The obligation
+model mirrors, that the torrent name is checked (CreateContent::check_name over
+FilePath::is_normal_component, the test Model/CreateFs.v [name_ok] mirrors) in both branches of
+from_create at the position the model gives it, and the number of filesystem-mutating call sites
+in the two files. The obligation
 c09_source_order compares these with Model/CreateOrder.v, so a reordering of Create::run breaks
 an obligation even when no generated case happens to notice."""
 import re
@@ -39,8 +42,19 @@ CONTENT_MARKERS = [
     ("walk", r"\.files\(\)\?"),
     ("fname", r"\.file_name\(\)"),
     ("decode", r"Error::FilenameDecode"),
+    ("namecheck", r"Self::check_name\(&name\)\?"),
     ("default", r"Self::torrent_path\(path, &name\)"),
 ]
+# the `InputTarget::Stdin => { … }` arm of from_create
+STDIN_MARKERS = [
+    ("stdin_name", r"Expected `--name` to be set"),
+    ("stdin_namecheck", r"Self::check_name\(&name\)\?"),
+    ("stdin_output", r"Expected `--output` to be set"),
+]
+# the only shapes of the name test the model's [name_ok] is known to mirror (white space removed)
+CHECK_NAME_BODY = "{ifFilePath::is_normal_component(name){Ok(())}else{Err(Error::NameInvalid{name:name.to_owned(),})}}"
+IS_NORMAL_BODY = ("{letmutparsed=Path::new(component).components();matches!((parsed.next(),parsed.next()),"
+                  "(Some(path::Component::Normal(name)),None)ifname==OsStr::new(component))}")
 MUTATORS = r"OpenOptions::new|fs::write|File::create|fs::remove|fs::rename|create_dir|env\.write\(|set_permissions|fs::copy|set_len"
 
 
@@ -93,7 +107,20 @@ def gen(repo):
     inside = all(pos["dryguard"] < pos[t] < end for t in ("forcebranch", "trunc", "excl", "open", "write"))
     after = all(pos[t] > end for t in ("show", "link", "opener"))
     fc = fn_body(cc, "pub(crate) fn from_create(")
-    _, content_order = order(fc, CONTENT_MARKERS)
+    arms = fc.split("InputTarget::Stdin =>")
+    if len(arms) != 2 or "InputTarget::Path(path) =>" not in arms[0]:
+        raise Untranslatable("from_create is not a match over InputTarget::Path / InputTarget::Stdin, in that order")
+    _, content_order = order(arms[0], CONTENT_MARKERS)
+    _, stdin_order = order(arms[1], STDIN_MARKERS)
+    # the name test: a rewritten body is not something this generator can read (reference tables + correspondence
+    # decide then); a body that reads as the known test is what [name_ok] models
+    cn = re.sub(r"\s+", "", fn_body(cc, "fn check_name(name: &str) -> Result<()>"))
+    fp = strip_comments(strip_tests(read(repo, "src/file_path.rs")))
+    inc = re.sub(r"\s+", "", fn_body(fp, "pub(crate) fn is_normal_component(component: &str) -> bool"))
+    if cn != CHECK_NAME_BODY:
+        raise Untranslatable("CreateContent::check_name has an unknown shape")
+    if inc != IS_NORMAL_BODY:
+        raise Untranslatable("FilePath::is_normal_component has an unknown shape")
     tp = re.sub(r"\s+", "", fn_body(cc, "fn torrent_path(input: &Path, name: &str) -> PathBuf"))
     tp_ok = tp == '{input.join("..").lexiclean().join(format!("{name}.torrent"))}'
     nmut = len(re.findall(MUTATORS, cr)) + len(re.findall(MUTATORS, cc))
@@ -101,18 +128,22 @@ def gen(repo):
     return ("Definition translated : bool := true.\n"
             "Definition run_order : list string := %s.\n"
             "Definition content_order : list string := %s.\n"
+            "Definition stdin_order : list string := %s.\n"
+            "Definition name_check_is_model : bool := true.\n"
             "Definition write_inside_dry_guard : bool := %s.\n"
             "Definition post_steps_after_guard : bool := %s.\n"
             "Definition torrent_path_is_model : bool := %s.\n"
             "Definition mutating_call_sites : N := %d.\n"
-            % (lst(run_order), lst(content_order), str(inside).lower(), str(after).lower(), str(tp_ok).lower(), nmut))
+            % (lst(run_order), lst(content_order), lst(stdin_order), str(inside).lower(), str(after).lower(), str(tp_ok).lower(), nmut))
 
 
 def fallback():
     return ("Definition translated : bool := false.\nDefinition run_order : list string := [].\n"
-            "Definition content_order : list string := [].\nDefinition write_inside_dry_guard : bool := false.\n"
+            "Definition content_order : list string := [].\nDefinition stdin_order : list string := [].\n"
+            "Definition name_check_is_model : bool := false.\nDefinition write_inside_dry_guard : bool := false.\n"
             "Definition post_steps_after_guard : bool := false.\nDefinition torrent_path_is_model : bool := false.\n"
             "Definition mutating_call_sites : N := 0.\n")
 
 
-GENERATORS = {"GenCreateOrder": (gen, fallback, "src/subcommand/torrent/create.rs, src/subcommand/torrent/create/create_content.rs")}
+GENERATORS = {"GenCreateOrder": (gen, fallback, "src/subcommand/torrent/create.rs, src/subcommand/torrent/create/create_content.rs, "
+                                                "src/file_path.rs")}
